@@ -221,7 +221,8 @@ class InterSystemRecurrenceNetwork(InteractingNetworks):
     #
 
     def __cache_state__(self) -> Tuple[Hashable, ...]:
-        return (InteractingNetworks.__cache_state__(self)
+        return ((InteractingNetworks.__cache_state__(self)
+                 if hasattr(self, "_mut_A") else ())
                 + (self.rp_x, self.rp_y, self.crp_xy,))
 
     #
